@@ -186,6 +186,11 @@ def pitFormula (c : α) (cnt nens : Nat) : α := ((cnt : α) + 1 / 2 - c) / (1 -
 def pitRandom (cst obs dobs : α) (ens dens : List α) : α :=
   pitFormula (clampCst cst) (belowJit obs dobs ens dens) ens.length
 
+/-- `pit(..., random=True)` for all forecasts (rows of `ens` / `dens`) -/
+def pitRandomAll (cst : α) : List α → List α → List (List α) → List (List α) → List α
+  | o :: os, d :: ds, e :: es, de :: des => pitRandom cst o d e de :: pitRandomAll cst os ds es des
+  | _, _, _, _ => []
+
 /-- scipy's `percentileofscore(ens, obs, kind="rank")/100` -/
 def pitRankFormula (left right nens : Nat) : α :=
   ((left + right + (if left < right then 1 else 0) : Nat) : α) * (50 / (nens : α)) / 100
@@ -199,6 +204,30 @@ def isSudo (eps censor obs : α) (ens : List α) : Bool :=
   decide (obs < censor + eps) && decide (0 < (ens.filter fun a => decide (a < censor + eps)).length)
 
 end pit
+
+/-! ### `__check_ensemble_data`: the glue in front of `pit` and `alpha` -/
+
+section glue
+variable {α : Type}
+
+inductive EnsErr | lengthMismatch | noValidData
+  deriving DecidableEq, Repr
+
+/-- forecasts kept: the observation is present (`pd.notnull`) and at least one member is -/
+def keepRows : List (Option α) → List (List (Option α)) → List (α × List (Option α))
+  | some o :: os, e :: es => if e.any Option.isSome then (o, e) :: keepRows os es else keepRows os es
+  | none :: os, _ :: es => keepRows os es
+  | _, _ => []
+
+/-- first-dimension check, then the NaN filter, then "No valid data" -/
+def checkEnsemble (obs : List (Option α)) (ens : List (List (Option α))) :
+    Except EnsErr (List (α × List (Option α))) :=
+  if ens.length ≠ obs.length then .error .lengthMismatch
+  else
+    let k := keepRows obs ens
+    if k.isEmpty then .error .noValidData else .ok k
+
+end glue
 
 /-! ### Cramer-von Mises and Anderson-Darling statistics -/
 
@@ -345,5 +374,28 @@ def clamp01 (p : α) : α := if p < 0 then 0 else if 1 < p then 1 else p
 def adPvalue (n : Nat) (stat : α) : α := clamp01 (1 - adProb n stat)
 
 end adp
+
+/-! ### alpha: PIT of the random branch (with `pit`'s own default constant), then a uniformity test -/
+
+section alpha
+variable {α : Type} [Add α] [Sub α] [Mul α] [Div α] [Neg α] [LT α] [DecidableLT α] [LE α] [DecidableLE α]
+  [OfNat α 0] [OfNat α 1] [OfNat α 2] [OfNat α 12] [OfNat α 50] [OfNat α 100] [NatCast α] [OfScientific α] [Transc α]
+
+/-- `alpha(type="CV")`: statistic and p-value. `cst0` is the default `cst` of `pit` (0.3): `alpha` calls
+`pit(obs, ens, random=True)` without passing its own `cst` on -/
+def alphaCV (sort : List α → List α) (cst0 : α) (obs dobs : List α) (ens dens : List (List α)) : α × Option α :=
+  let pits := pitRandomAll cst0 obs dobs ens dens
+  let stat := cvmStat sort pits
+  (stat, cvmPvalue pits.length stat)
+
+/-- `alpha(type="AD")` -/
+def alphaAD (sort : List (Option α) → List (Option α)) (prev0 cst0 : α) (obs dobs : List α)
+    (ens dens : List (List α)) : Except ADErr (α × α) :=
+  let pits := pitRandomAll cst0 obs dobs ens dens
+  match adTest sort prev0 (pits.map some) with
+  | .ok s => .ok (s, adPvalue pits.length s)
+  | .error e => .error e
+
+end alpha
 
 end HydroVerif.C10
